@@ -266,7 +266,96 @@ pub fn run(tier: Tier) -> i32 {
         }
         rep.merge(acc);
     });
+    builtin_managers(&rep);
     let _ = (ext_alphabet, refm::header_fields, Kind::Complete);
     rep.part(json!({"part":"chains","chains":n_chains,"max_chain_length":maxlen,"manager_kinds":n_mgr_kinds}));
     rep.finish(true)
+}
+
+/// the crate's own managers: SimpleMandatoryExtensionHeaderManager knows nothing,
+/// SignalisationMandatoryExtensionHeaderManager knows 0x0081 and 0x0082 as final extensions without data
+fn builtin_managers(rep: &Report) {
+    use dvb_gse_rust::gse_decap::{Decapsulator, GseDecapMemory, SimpleGseMemory};
+    use dvb_gse_rust::header_extension::{SignalisationMandatoryExtensionHeaderManager, SimpleMandatoryExtensionHeaderManager};
+    let mut acc = Acc::default();
+    let chains: Vec<Vec<(u16, Vec<u8>)>> = vec![
+        vec![(0x0081, vec![])],
+        vec![(0x0082, vec![])],
+        vec![(0x0101, vec![]), (0x0081, vec![])],
+        vec![(0x0303, vec![1, 2, 3, 4]), (0x0082, vec![])],
+        vec![(0x0202, vec![9, 8])],
+        vec![(0x0010, vec![])],
+        vec![(0x0080, vec![])],
+        vec![(0x0083, vec![])],
+        vec![(0x0202, vec![9, 8]), (0x0011, vec![7])],
+    ];
+    for c in &chains {
+        let last = c.last().unwrap().0;
+        let pts: Vec<u16> = if last < 0x0100 { vec![last, 0x0800] } else { vec![0x0800] };
+        for pt in pts {
+            let mand: Vec<u16> = c.iter().map(|e| e.0).filter(|&i| i < 0x0100).collect();
+            // for the Signalisation manager the packet is decodable iff every mandatory id is 0x81/0x82,
+            // used as the final extension (pt == id) and carrying no data
+            let sig_ok = mand.iter().all(|&i| (i == 0x0081 || i == 0x0082) && pt == i && last == i);
+            for p in [0usize, 1, 7] {
+                let pd = pdu(p, 0);
+                for l in [L6A, L3A, Lbl::Bcast] {
+                    let ext_wire: usize = c.iter().map(|e| 2 + e.1.len()).sum();
+                    for b in [7 + l.wire_len() + ext_wire - 2, 7 + l.wire_len() + ext_wire + 1, 64] {
+                        let mut enc = Encapsulator::new(DefaultCrc {});
+                        let mut buf = vec![0u8; b];
+                        let out = do_encap_ext(&mut enc, &pd, 4, pt, l, &mut buf, c);
+                        acc.states += 1;
+                        acc.transitions += 1;
+                        acc.calls += 1;
+                        let Some(n) = out.len() else { continue };
+                        let mut pkts = vec![buf[..n].to_vec()];
+                        if let EncOut::Fragmented(_, ctx) = &out {
+                            let mut bb = vec![0u8; 64];
+                            if let EncOut::Completed(n2) = do_encap_frag(&enc, &pd, *ctx, &mut bb) {
+                                pkts.push(bb[..n2].to_vec());
+                            }
+                        }
+                        let wit = || json!({"call":"encap_ext","pdu_len":p,"pdu_pattern":0,"frag_id":4,"pt":pt,"label":l.short(),"buffer_len":b,"extensions":c.iter().map(|e| json!([e.0, hex(&e.1)])).collect::<Vec<_>>(),"packets":pkts.iter().map(|x| hex(x)).collect::<Vec<_>>()});
+                        // Simple manager: any mandatory extension => dropped as a whole; none => delivered
+                        for which in ["simple", "signalisation"] {
+                            let mem = {
+                                let mut m = SimpleGseMemory::new(2, 8, 0, 0);
+                                let _ = m.provision_storage(vec![0u8; 8].into_boxed_slice());
+                                let _ = m.provision_storage(vec![0u8; 8].into_boxed_slice());
+                                m
+                            };
+                            let outs: Vec<DecapOut> = if which == "simple" {
+                                let mut d = Decapsulator::new(mem, DefaultCrc {}, SimpleMandatoryExtensionHeaderManager {});
+                                pkts.iter().map(|x| observe(catch(|| d.decap(x)))).collect()
+                            } else {
+                                let mut d = Decapsulator::new(mem, DefaultCrc {}, SignalisationMandatoryExtensionHeaderManager {});
+                                pkts.iter().map(|x| observe(catch(|| d.decap(x)))).collect()
+                            };
+                            acc.transitions += pkts.len() as u64;
+                            acc.calls += pkts.len() as u64;
+                            acc.compared += 1;
+                            let must_deliver = if which == "simple" { mand.is_empty() } else { sig_ok };
+                            let delivered = matches!(outs.last(), Some(DecapOut::Completed { buf, meta, .. }) if meta.pdu_len == p && buf[..p] == pd[..] && meta.pt == pt && meta.label == l && meta.exts == *c);
+                            acc.outcome(&format!("builtin-{}:{}", which, outs[0].class()));
+                            if must_deliver && !delivered {
+                                rep.violation(&format!("C13|builtin-manager|{}|not-delivered|{}", which, outs.last().unwrap().class()), p as u64, || (format!("chain {:?} pt {:#06x}: the crate's {} manager knows every mandatory id used, but the receiver answers {:?}", c.iter().map(|e| e.0).collect::<Vec<_>>(), pt, which, outs.iter().map(|o| o.brief()).collect::<Vec<_>>()), wit()));
+                            }
+                            if !must_deliver {
+                                let first_ok = matches!(&outs[0], DecapOut::Err { kind, consumed, .. } if kind == "ErrorUnkownMandatoryHeader" && *consumed == pkts[0].len());
+                                // a chain the sender's finality notion and the manager's disagree on may also be misparsed; only
+                                // chains containing an id the manager does not know at all must be dropped as unknown
+                                let unknown = mand.iter().any(|&i| which == "simple" || !(i == 0x0081 || i == 0x0082));
+                                if unknown && !first_ok {
+                                    rep.violation(&format!("C13|builtin-manager|{}|unknown-mandatory-not-dropped|{}", which, outs[0].class()), p as u64, || (format!("chain {:?} pt {:#06x}: the {} manager does not know a mandatory id of the chain, but the receiver answers {}", c.iter().map(|e| e.0).collect::<Vec<_>>(), pt, which, outs[0].brief()), wit()));
+                                }
+                            }
+                        }
+                    }
+                }
+            }
+        }
+    }
+    rep.merge(acc);
+    rep.part(json!({"part":"built-in managers (Simple, Signalisation)","chains":chains.len()}));
 }
